@@ -23,6 +23,7 @@ class Refs(object):
         self.stats = {}
         self.notes = []
         self._rec_direct = {}
+        self.timed_out = False
 
     # ---- bookkeeping ---------------------------------------------------------
     def count(self, key, n=1):
@@ -41,7 +42,11 @@ class Refs(object):
         err = numpy.errstate(all='raise') if errstate else numpy.errstate()
         try:
             with err:
-                return ['ok', thunk()]
+                with env.cpu_limit():
+                    return ['ok', thunk()]
+        except env.CallTimeout:
+            self.timed_out = True
+            return ['exc', 'CallTimeout']
         except Exception as e:
             return ['exc', type(e).__name__]
 
@@ -180,6 +185,10 @@ class Refs(object):
         fwd_ok = [False] * nC
         fwd_args = [None] * nC
         for ev in self.slog['events']:
+            if self.timed_out:
+                # a reference computation itself did not return; stop judging
+                self.count('aborted:reference_timeout')
+                break
             step = steps[ev['seq']]
             c = ev['c']
             cfg = run['clients'][c]
@@ -224,18 +233,16 @@ class Refs(object):
                 if ok:
                     fwd_args[c] = ev.get('fwd_args')
             else:
+                # A reverse sweep that does not complete leaves the forward state valid (the
+                # library re-initialises adjoints at the start of every sweep and puts buffers
+                # back whether or not the sweep finished), so later sweeps stay checked.  Only a
+                # *forward* evaluation that did not complete invalidates them (R2).
                 if fired or step.get('bad'):
                     self.count('unchecked:R1')
-                    if not ok:
-                        fwd_ok[c] = False
                 elif not fwd_ok[c] or fwd_args[c] is None:
                     self.count('unchecked:R2')
-                    if not ok:
-                        fwd_ok[c] = False
                 else:
                     self.judge_rev(ev, step, prog, fwd_args[c])
-                    if not ok:
-                        fwd_ok[c] = False
         if self.slog.get('rec_failed') is not None and 'C05' in props:
             ev = self.slog['events'][-1]
             _, failed = self.rec_direct(ev['c'])
